@@ -55,7 +55,7 @@ func TestVerifC06Dist(t *testing.T) {
 					} else if !reflect.DeepEqual(o, first) {
 						out.Emit(vc.M{"kind": "violation", "predicate": "Deterministic", "site": "newVoteDistribution", "class": "same-input-different-summary",
 							"what": fmt.Sprintf("the same proofs gave two different distributions: %+v vs %+v", first, o),
-							"i": ev.I, "src": ev.Src, "pow": ev.Pow, "state": w.StateJSON()})
+							"i":    ev.I, "src": ev.Src, "pow": ev.Pow, "state": w.StateJSON()})
 						break
 					}
 				}
